@@ -19,6 +19,25 @@ Definition span_last (n c : Z) : bool := u64 c <=? n.
 Definition span_subspan (n off c : Z) : bool :=
   (u64 off <=? n) && (if negb (u64 c =? dyn_extent) then u64 c <=? u64 (n - u64 off) else true).
 
+(** the compile-time forms first<Count>() / last<Count>() / subspan<Offset, Count>() (fix commit b24e9dc): on a span of
+    dynamic extent the static_asserts are vacuous (Count <= dynamic_extent; Count == dynamic_extent or
+    Count <= dynamic_extent - Offset), so the run-time checks decide:
+      TETL_PRECONDITION(Count <= size());
+      TETL_PRECONDITION(Offset <= size()); TETL_PRECONDITION(Count != dynamic_extent ? (Count <= size() - Offset) : true);
+    the template arguments are size_t constants *)
+Definition span_tfirst (n count : Z) : bool := u64 count <=? n.
+Definition span_tlast (n count : Z) : bool := u64 count <=? n.
+Definition span_tsubspan (n off c : Z) : bool :=
+  (u64 off <=? n) && (if negb (u64 c =? dyn_extent) then u64 c <=? u64 (n - u64 off) else true).
+(* which of subspan<Offset, Count>()'s two checks fires: 0 = none, 1 = Offset <= size(), 2 = the Count check *)
+Definition span_tsubspan_site (n off c : Z) : nat :=
+  if u64 off <=? n then (if span_tsubspan n off c then O else 2%nat) else 1%nat.
+
+(** constructors of a span of static extent from a run-time length — span(first, count), span(range), span(span<U, dynamic>):
+      TETL_PRECONDITION(extent == dynamic_extent or count == extent)      (count / ranges::size(r) / source.size())
+    [span.cons]; before the fix commit the length was silently ignored and size() reported Extent *)
+Definition span_ctor_count (ext count : Z) : bool := (u64 ext =? dyn_extent) || (u64 count =? u64 ext).
+
 (** _string_view/basic_string_view.hpp, a view of n characters *)
 Definition sv_index (n i : Z) : bool := u64 i <? n.
 Definition sv_front (n : Z) : bool := negb (n =? 0).
